@@ -81,7 +81,7 @@ pub fn run(e: &'static Engine) {
     let per_combo: u32 = e.tier.pick(2, 2);
     let mut jobs: Vec<Job> = Vec::new();
     // enumerated part, one job per version (large versions first for load balance)
-    for v in (1..=40usize).rev() {
+    for v in 1..=40usize {
         jobs.push(Box::new(move |jc: &mut JobCtx| {
             let mut salt = 0u64;
             for (li, &level) in LEVELS.iter().enumerate() {
